@@ -253,3 +253,19 @@ func ClearCheckpoint(prop string) {
 	i, _ := Shard()
 	os.Remove(filepath.Join(dir, fmt.Sprintf("%s.%d.current", prop, i)))
 }
+
+// Guard arms a real-time watchdog around one execution (call it outside any
+// synctest bubble).  An execution normally takes milliseconds; one that is
+// still running after limit (a handler that never returns, a goroutine
+// spinning inside a bubble so that quiescence is never reached) is reported
+// as "did not terminate": the worker leaves a note for the runner, which
+// attributes the violation to this execution, and exits.  The limit is only
+// ever used this way, never as a timing oracle.
+func Guard(prop, keyHint string, replay any, limit time.Duration) (stop func()) {
+	t := time.AfterFunc(limit, func() {
+		CheckpointKey(prop, keyHint+"/did-not-terminate", replay)
+		fmt.Fprintf(os.Stderr, "fatal error: execution did not terminate within %v (livelock or handler that never returns)\n", limit)
+		os.Exit(3)
+	})
+	return func() { t.Stop() }
+}
